@@ -256,6 +256,10 @@ class LayerRuleMatcher(RuleMatcher):
                 )
 
             else:
-                result = result + module_name_conversion_mapping[module.identifier]
+                # regex layers the rule does not mention have not been resolved: their modules
+                # are treated like modules that are not part of any layer
+                result = result + module_name_conversion_mapping.get(
+                    module.identifier, []
+                )
 
         return result
